@@ -180,11 +180,11 @@ fn plans(thorough: bool) -> Vec<Plan> {
         let mut dims = vec![content_dim("A.23E", K::A, 0, "23E", &a_codes), opt_presence("A.21E", K::A, 0, "21E", &["21E"]), opt_presence("A.50CL", K::A, 0, "50C", &["50C"]), opt_presence("A.50AK", K::A, 0, "50A", &["50K"]), opt_presence("A.52a", K::A, 0, "52A", &["52A"]), opt_presence("A.26T", K::A, 0, "26T", &["26T"]), opt_presence("A.77B", K::A, 0, "77B", &["77B"]), opt_presence("A.71A", K::A, 0, "71A", &["71A"]), opt_presence("A.72", K::A, 0, "72", &["72"])];
         if is104 { dims.push(opt_presence("A.21R", K::A, 0, "21R", &["21R"])); }
         let mut dims_tail: Vec<Dim> = vec![];
-        dims.push(content_dim("C.19", K::C, 0, "19", &[("absent", None), ("sum", Some("1000,00")), ("other", Some("999,00"))]));
+        dims.push(content_dim("C.19", K::C, 0, "19", &[("absent", None), ("sum", Some("1000,00")), ("other", Some("999,00")), ("one-cent-off", Some("1000,01"))]));
         dims.push(content_dim("C.71F", K::C, 0, "71F", &[("absent", None), ("EUR", Some("EUR5,00")), ("USD", Some("USD5,00"))]));
         dims.push(content_dim("C.71G", K::C, 0, "71G", &[("absent", None), ("EUR", Some("EUR5,00")), ("USD", Some("USD5,00"))]));
         // sequence C as a whole: its 32B opens it; "absent" removes every field of C (a lone 71F/71G/19 would be read as part of the last transaction)
-        let mut c32 = content_dim("C.32B", K::C, 0, "32B", &[("sum", Some("EUR1000,00")), ("other-amount", Some("EUR1100,00")), ("other-ccy", Some("USD1000,00"))]);
+        let mut c32 = content_dim("C.32B", K::C, 0, "32B", &[("sum", Some("EUR1000,00")), ("other-amount", Some("EUR1100,00")), ("other-ccy", Some("USD1000,00")), ("one-cent-off", Some("EUR999,99"))]);
         if is104 { c32.options.push(("absent".into(), ["32B", "19", "71F", "71G"].iter().map(|t| Edit { kind: K::C, seq: 0, tag: t.to_string(), items: vec![] }).collect())); }
         dims_tail.push(c32);
         let mut clusters: Vec<Vec<&'static str>> = vec![];
@@ -214,8 +214,14 @@ fn plans(thorough: bool) -> Vec<Plan> {
     // ---- MT110 / 204 / 210 : currency consistency, counts, sums, exclusivity
     p.push(Plan { mt: "110", nseq: 3, dims: (0..3).map(|k| Dim { name: format!("B{k}.32"), options: vec![("32A-USD".into(), vec![Edit { kind: K::B, seq: k, tag: "32A".into(), items: vec![("32A".into(), "240719USD100,00".into())] }]), ("32B-USD".into(), vec![Edit { kind: K::B, seq: k, tag: "32A".into(), items: vec![("32B".into(), "USD100,00".into())] }]), ("32A-EUR".into(), vec![Edit { kind: K::B, seq: k, tag: "32A".into(), items: vec![("32A".into(), "240719EUR100,00".into())] }])] }).collect(), clusters: vec![vec!["B0.32", "B1.32", "B2.32"]] });
     {
-        let mut dims = vec![content_dim("19", K::A, 0, "19", &[("sum", Some("300,00")), ("other", Some("299,00")), ("sum2", Some("400,00"))])];
-        for k in 0..3usize { dims.push(content_dim(Box::leak(format!("B{k}.32B").into_boxed_str()), K::B, k, "32B", &[("USD100", Some("USD100,00")), ("USD200", Some("USD200,00")), ("EUR100", Some("EUR100,00"))])); }
+        // whole amounts and cent amounts whose binary sums are inexact (1,15 + 2,30; 19,99 + 0,01; 0,57 + 0,58)
+        let mut dims = vec![content_dim("19", K::A, 0, "19", &[("sum", Some("300,00")), ("other", Some("299,00")), ("sum2", Some("400,00")), ("203,45", Some("203,45")), ("120,00", Some("120,00")), ("101,15", Some("101,15")), ("101,16", Some("101,16"))])];
+        let cents: [&[(&str, Option<&str>)]; 3] = [
+            &[("USD100", Some("USD100,00")), ("USD200", Some("USD200,00")), ("EUR100", Some("EUR100,00")), ("USD1,15", Some("USD1,15")), ("USD19,99", Some("USD19,99")), ("USD0,57", Some("USD0,57"))],
+            &[("USD100", Some("USD100,00")), ("USD200", Some("USD200,00")), ("EUR100", Some("EUR100,00")), ("USD2,30", Some("USD2,30")), ("USD0,01", Some("USD0,01")), ("USD0,58", Some("USD0,58"))],
+            &[("USD100", Some("USD100,00")), ("USD200", Some("USD200,00")), ("EUR100", Some("EUR100,00"))],
+        ];
+        for k in 0..3usize { dims.push(content_dim(Box::leak(format!("B{k}.32B").into_boxed_str()), K::B, k, "32B", cents[k])); }
         p.push(Plan { mt: "204", nseq: 3, dims, clusters: vec![vec!["19", "B0.32B", "B1.32B", "B2.32B"]] });
     }
     {
